@@ -103,6 +103,18 @@ def obs_paths(searcher, q, paths, limits=(0, 1, 2, 3), cmp="full", alt=False, aq
                 obs.append(o)
                 obs.append({"kind": "count", "path": "len(search(limit=%d))" % k, "n": len(r)})
             guard("search(limit=%d)" % k, f)
+            if k == limits[-1] or k == 1:
+                # the same search told not to use block qualities: same hits, same count
+                def g(k=k):
+                    r = searcher.search(q, limit=k, optimize=False)
+                    o = {"kind": "ranked", "path": "search(limit=%d,optimize=False)" % k, "k": k, "hits": hits_of(r),
+                         "cmp": cmp}
+                    if alt:
+                        with scaled_wrapping_replace():
+                            o["alt"] = hits_of(searcher.search(q, limit=k, optimize=False))
+                    obs.append(o)
+                    obs.append({"kind": "count", "path": "len(search(limit=%d,optimize=False))" % k, "n": len(r)})
+                guard("search(limit=%d,optimize=False)" % k, g)
     if "weightingquery" in paths:
         # the query wrapped in a WeightingQuery that asks for the searcher's own (exact) weighting, run on a searcher
         # that scores with another model: the scores are those of the wrapper's model
